@@ -11,8 +11,24 @@
 //   c4conv <from> <to> <decimal>      QIntC::to_<to>(<from> value)       -> ok <decimal> | range
 //   c4fits <from> <to> <decimal>      util::fits<to>(<from> value), util::to<to> -> <0|1> ok <decimal> | <0|1> range
 //        types: c uc s us i u l ul ll ull sz off
+//   c4xwalk <hex pdf> <cap>
+//        processInputSource (no recovery) on an input source that records every offset Objects::read_xref is asked to read
+//        (a seek to an absolute offset that is followed by the one-byte read of its white-space skip, or that fails);
+//        more than <cap> of them end the run (runtime_error from the input source)
+//        -> <ok|loop|notfound|damaged|runaway|other:...> v=<offsets in order> ws=<"extraneous whitespace" warnings> warns=<n>
+//   c4json <c|u> <hex JSON text> [<hex pdf>] [<datafile directory>]
+//        c: QPDF::createFromJSON;  u: processMemoryFile(pdf) then QPDF::updateFromJSON; after a successful import the document is
+//        written to memory (QPDFWriter, static id) - the TYPE of whatever is thrown is what is observed
+//   c4png <e|d> <limit> <columns> <samples_per_pixel> <bits_per_sample>
+//        Pl_PNGFilter's constructor with global::Limits::png_max_memory = <limit> (restored afterwards); no data is written
+//        -> ok | err:<message>
+//        -> exc=<none|QPDFExc|runtime|logic|bad_alloc|other|unknown> refused=<n> warns=<n> streams=<n.g,...|-> write=<none|...|skipped> msg=<hex>
 #include "drv.hh"
+#include <qpdf/BufferInputSource.hh>
+#include <qpdf/Pl_Discard.hh>
+#include <qpdf/Pl_PNGFilter.hh>
 #include <qpdf/QIntC.hh>
+#include <qpdf/QPDFWriter.hh>
 #include <qpdf/QPDF.hh>
 #include <qpdf/QPDFExc.hh>
 #include <qpdf/QPDFNumberTreeObjectHelper.hh>
@@ -231,6 +247,203 @@ namespace
         return "?type";
     }
 
+    // ---- c4xwalk
+    class C4LogSource: public BufferInputSource
+    {
+      public:
+        C4LogSource(std::string const& data, size_t cap) :
+            BufferInputSource("c4xwalk", data),
+            cap(cap)
+        {
+        }
+        void
+        seek(qpdf_offset_t offset, int whence) override
+        {
+            pending = false;
+            if (whence == SEEK_SET) {
+                pending = true;
+                pending_off = offset;
+            }
+            try {
+                BufferInputSource::seek(offset, whence);
+            } catch (...) {
+                if (pending) {
+                    note();
+                }
+                throw;
+            }
+        }
+        size_t
+        read(char* buffer, size_t length) override
+        {
+            if (pending && length == 1) {
+                note();
+            }
+            pending = false;
+            return BufferInputSource::read(buffer, length);
+        }
+        void
+        unreadCh(char ch) override
+        {
+            pending = false;
+            BufferInputSource::unreadCh(ch);
+        }
+        std::vector<qpdf_offset_t> log;
+        bool runaway{false};
+
+      private:
+        void
+        note()
+        {
+            pending = false;
+            log.push_back(pending_off);
+            if (log.size() > cap) {
+                runaway = true;
+                throw std::runtime_error("c4xwalk: cap on cross-reference section reads exceeded");
+            }
+        }
+        size_t cap;
+        bool pending{false};
+        qpdf_offset_t pending_off{0};
+    };
+
+    std::string c4xwalk(std::vector<std::string> const& a)
+    {
+        if (a.size() != 2) return "?args";
+        auto src = std::make_shared<C4LogSource>(unhex(a[0]), static_cast<size_t>(std::stoll(a[1])));
+        QPDF q;
+        q.setSuppressWarnings(true);
+        q.setAttemptRecovery(false);
+        std::string res = "ok";
+        try {
+            q.processInputSource(src);
+        } catch (QPDFExc& e) {
+            std::string m = e.what();
+            if (m.find("loop detected following xref tables") != std::string::npos) res = "loop";
+            else if (m.find("xref not found") != std::string::npos || m.find("can't find startxref") != std::string::npos ||
+                     m.find("error reading xref") != std::string::npos) res = "notfound";
+            else res = "damaged";
+        } catch (std::logic_error& e) {
+            res = std::string("other:logic_error:") + e.what();
+        } catch (std::exception& e) {
+            res = src->runaway ? "runaway" : std::string("other:") + e.what();
+        }
+        if (src->runaway) res = "runaway";
+        for (auto& c: res) if (c == ' ') c = '_';
+        size_t ws = 0;
+        auto warns = q.getWarnings();
+        for (auto& w: warns) {
+            if (std::string(w.what()).find("extraneous whitespace seen before xref") != std::string::npos) ++ws;
+        }
+        std::string v;
+        for (auto o: src->log) v += (v.empty() ? "" : ",") + std::to_string(o);
+        return res + " v=" + (v.empty() ? "-" : v) + " ws=" + std::to_string(ws) + " warns=" + std::to_string(warns.size());
+    }
+
+    // ---- c4json
+    template <typename F>
+    std::string exc_type(F f, std::string& msg)
+    {
+        try {
+            f();
+        } catch (QPDFExc& e) {
+            msg = e.what();
+            return "QPDFExc";
+        } catch (std::logic_error& e) {
+            msg = e.what();
+            return "logic";
+        } catch (std::runtime_error& e) {
+            msg = e.what();
+            return "runtime";
+        } catch (std::bad_alloc& e) {
+            msg = e.what();
+            return "bad_alloc";
+        } catch (std::exception& e) {
+            msg = e.what();
+            return "other";
+        } catch (...) {
+            return "unknown";
+        }
+        return "none";
+    }
+
+    std::string c4json(std::vector<std::string> const& a)
+    {
+        if (a.size() < 2 || a.size() > 3) return "?args";
+        bool update = a[0] == "u";
+        std::string json = unhex(a[1]);
+        std::string pdf = a.size() > 2 ? unhex(a[2]) : "";
+        QPDF q;
+        q.setSuppressWarnings(true);
+        std::string msg;
+        std::string exc = exc_type(
+            [&]() {
+                if (update) {
+                    q.processMemoryFile("c4json.pdf", pdf.data(), pdf.size());
+                    q.updateFromJSON(std::make_shared<BufferInputSource>("c4json", json));
+                } else {
+                    q.createFromJSON(std::make_shared<BufferInputSource>("c4json", json));
+                }
+            },
+            msg);
+        size_t refused = 0;
+        auto warns = q.getWarnings();
+        for (auto& w: warns) {
+            if (std::string(w.what()).find("may not be an indirect object reference") != std::string::npos) ++refused;
+        }
+        std::string streams;
+        std::string wexc = "skipped";
+        std::string wmsg;
+        if (exc == "none") {
+            std::string smsg;
+            std::string sexc = exc_type(
+                [&]() {
+                    for (auto& oh: q.getAllObjects()) {
+                        if (oh.isStream()) {
+                            streams += (streams.empty() ? "" : ",") + std::to_string(oh.getObjectID()) + "." + std::to_string(oh.getGeneration());
+                        }
+                    }
+                },
+                smsg);
+            if (sexc != "none") streams = "!" + sexc;
+            wexc = exc_type(
+                [&]() {
+                    QPDFWriter w(q);
+                    Pl_Discard d;
+                    w.setOutputPipeline(&d);
+                    w.setStaticID(true);
+                    w.write();
+                },
+                wmsg);
+            if (msg.empty()) msg = wmsg;
+        }
+        return "exc=" + exc + " refused=" + std::to_string(refused) + " warns=" + std::to_string(warns.size()) + " streams=" +
+            (streams.empty() ? "-" : streams) + " write=" + wexc + " msg=" + hex(msg.substr(0, 160));
+    }
+
+    std::string c4png(std::vector<std::string> const& a)
+    {
+        if (a.size() != 5) return "?args";
+        auto old = qpdf::global::Limits::png_max_memory();
+        Pl_PNGFilter::setMemoryLimit(std::stoull(a[1]));
+        std::string res = "ok";
+        try {
+            Pl_Discard d;
+            Pl_PNGFilter f(
+                "c4png", &d, a[0] == "e" ? Pl_PNGFilter::a_encode : Pl_PNGFilter::a_decode, static_cast<unsigned int>(std::stoull(a[2])),
+                static_cast<unsigned int>(std::stoull(a[3])), static_cast<unsigned int>(std::stoull(a[4])));
+        } catch (std::logic_error& e) {
+            res = std::string("logic:") + e.what();
+        } catch (std::exception& e) {
+            res = "err";
+        }
+        Pl_PNGFilter::setMemoryLimit(old);
+        return res;
+    }
+
+    Reg r8("c4png", c4png);
+    Reg r6("c4xwalk", c4xwalk);
+    Reg r7("c4json", c4json);
     Reg r1("c4nn", c4nn);
     Reg r2("c4parse", c4parse);
     Reg r5("c4nnopen", c4nnopen);
